@@ -349,8 +349,11 @@ func oneCase(rt *rapid.T, opName, stop string) (fail string, labels []string) {
 		}
 	}
 	for _, rd := range w.readers {
-		if _, err := rd.Read(make([]byte, 1)); err == nil {
-			return describe + ": a reader still reads after deletion", nil
+		if n, err := rd.Read(make([]byte, 1)); err == nil {
+			n2, err2 := rd.Read(make([]byte, 1))
+			a1, a2, a3 := t.Request(uint32(x.N-1), 1, true, true)
+			describe += fmt.Sprintf(" [Request(N-1)=(%v,%v,%v) complete=%v infoComplete=%v N=%d]", a1, a2, a3, t.Pieces.Complete(uint32(x.N-1)), t.InfoComplete(), x.N)
+			return fmt.Sprintf("%s: a reader still reads after deletion: Read returned (%d, nil), then (%d, %v)", describe, n, n2, err2), nil
 		}
 		rd.Close()
 	}
@@ -410,6 +413,15 @@ func TestReg_c17_newpeer_dead(t *testing.T) {
 		for i := 0; i < 8; i++ {
 			runCell(t, rt, "NewPeer", "already-dead")
 			runCell(t, rt, "NewPeer", "queued-behind-goaway")
+		}
+	})
+}
+
+// Regression: Reads on a deleted torrent alternated between ErrTorrentDead and (0, nil).
+func TestReg_c17_reader_after_death(t *testing.T) {
+	rapid.Check(t, func(rt *rapid.T) {
+		for i := 0; i < 4; i++ {
+			runCell(t, rt, "Request(withdraw)", "ctx-cancel")
 		}
 	})
 }
